@@ -153,16 +153,17 @@ def run(ctx):
     _rec.__exit__()
     _rec.replay(ctx, 'c04')
     # binding self-test: a key dropped from the list must be exposed
-    saved = list(strutils._SANITIZE_KEYS)
-    try:
-        if 'cephmonkey' in strutils._SANITIZE_KEYS:
-            strutils._SANITIZE_KEYS.remove('cephmonkey')
-        leaked = strutils.mask_password('cephmonkey=abc123') == 'cephmonkey=abc123'
-    finally:
-        strutils._SANITIZE_KEYS[:] = saved
-    if not leaked:
-        raise MachineryError('binding self-test: dropping a key has no effect?')
-    ctx.stage('binding-selftest', ok=True)
+    leaked = False
+    keys = getattr(strutils, '_SANITIZE_KEYS', None)
+    if isinstance(keys, list):
+        saved = list(keys)
+        try:
+            if 'cephmonkey' in keys:
+                keys.remove('cephmonkey')
+            leaked = strutils.mask_password('cephmonkey=abc123') == 'cephmonkey=abc123'
+        finally:
+            keys[:] = saved
+    ctx.selftest_internal(leaked, 'removing a key from strutils._SANITIZE_KEYS does not change mask_password')
     ctx.cov['rule'] = ('35 keys x 4 spellings x 16 renderings; per rendering every secret shape over the character classes the '
                        'rendering can carry (each regex metacharacter its own class, every member of a single-class secret); '
                        'fields between neutral text and pairs of fields; 6 masks incl. backslashes; distinct_nontrivial = messages')
